@@ -103,46 +103,50 @@ func closedFiller(rng *rand.Rand, n int, nonASCII bool) string {
 	if nonASCII {
 		ws = append(append([]string{}, words...), wordsNonASCII...)
 	}
-	text := func() {
+	text := func(it *strings.Builder) {
 		k := 3 + rng.Intn(12)
 		for i := 0; i < k; i++ {
-			sb.WriteString(ws[rng.Intn(len(ws))])
-			sb.WriteByte(' ')
+			it.WriteString(ws[rng.Intn(len(ws))])
+			it.WriteByte(' ')
 		}
 	}
-	for sb.Len() < n {
+	for {
+		var it strings.Builder
 		switch rng.Intn(6) {
 		case 0:
-			sb.WriteString("<p>")
-			text()
-			sb.WriteString("</p>\n")
+			it.WriteString("<p>")
+			text(&it)
+			it.WriteString("</p>\n")
 		case 1:
-			sb.WriteString("<p class=\"x y\" title=\"")
-			sb.WriteString(ws[rng.Intn(len(ws))])
-			sb.WriteString("\">")
-			text()
-			sb.WriteString("</p>\n")
+			it.WriteString("<p class=\"x y\" title=\"")
+			it.WriteString(ws[rng.Intn(len(ws))])
+			it.WriteString("\">")
+			text(&it)
+			it.WriteString("</p>\n")
 		case 2:
-			sb.WriteString("<div><span>")
-			text()
-			sb.WriteString("</span></div>\n")
+			it.WriteString("<div><span>")
+			text(&it)
+			it.WriteString("</span></div>\n")
 		case 3:
-			sb.WriteString("<ul><li>")
-			text()
-			sb.WriteString("</li><li>")
-			text()
-			sb.WriteString("</li></ul>\n")
+			it.WriteString("<ul><li>")
+			text(&it)
+			it.WriteString("</li><li>")
+			text(&it)
+			it.WriteString("</li></ul>\n")
 		case 4:
-			sb.WriteString("<p>a &amp; b &lt; c <a href=\"/p?q=1&amp;r=2\">")
-			text()
-			sb.WriteString("</a></p>\n")
+			it.WriteString("<p>a &amp; b &lt; c <a href=\"/p?q=1&amp;r=2\">")
+			text(&it)
+			it.WriteString("</a></p>\n")
 		case 5:
-			sb.WriteString("<table><tbody><tr><td>")
-			text()
-			sb.WriteString("</td></tr></tbody></table><!-- c -->\n")
+			it.WriteString("<table><tbody><tr><td>")
+			text(&it)
+			it.WriteString("</td></tr></tbody></table><!-- c -->\n")
 		}
+		if sb.Len()+it.Len() > n {
+			return sb.String()
+		}
+		sb.WriteString(it.String())
 	}
-	return sb.String()
 }
 
 // document builds the page for a body shape with (about, then exactly) size bytes.
@@ -183,7 +187,7 @@ func document(shape string, size int, rng *rand.Rand) []byte {
 		return []byte(pre + mid + post)
 	}
 	if room > 0 {
-		mid = closedFiller(rng, room-40, nonASCII)
+		mid = closedFiller(rng, room-8, nonASCII)
 		// exact size: pad with a trailing comment
 		if d := size - len(pre) - len(post) - len(mid); d >= 7 {
 			mid += "<!--" + strings.Repeat("x", d-7) + "-->"
@@ -484,7 +488,8 @@ func (e *env) exchange(tc tcase, size int, rng *rand.Rand) outcome {
 		if gotEnc != wantEnc {
 			return bad("PassThroughIsIdentity", fmt.Sprintf("Content-Encoding %q became %q", wantEnc, gotEnc))
 		}
-		if got := resp.Header.Get("Content-Type"); got != ct {
+		// (a response without Content-Type gets one from net/http's sniffing in the proxy's own server: not the proxy's doing)
+		if got := resp.Header.Get("Content-Type"); got != ct && !noCT {
 			return bad("PassThroughIsIdentity", fmt.Sprintf("Content-Type %q became %q", ct, got))
 		}
 		if tc.Inserted != 0 || (tc.Bytes != "backend" && tc.Bytes != "gunzipped") {
@@ -631,6 +636,20 @@ func main() {
 			rule = "rewrite"
 		}
 		vhlib.Summary(map[string]any{"rule": rule, "detail": o.detail})
+	case "selftest":
+		// binding self-test: corrupted predictions must be reported
+		e, done := newEnv()
+		defer done()
+		rng := rand.New(rand.NewSource(1))
+		// (a) a configuration that is rewritten, declared "must pass through"
+		a := e.exchange(tcase{Cfg: config{Body: "full", Ct: "html", Csp: "scriptsrc", Enc: "gzip", Req: "plain", Accept: "browser"}, MustPass: true, Bytes: "backend"}, 5000, rng)
+		// (b) a policy with a script nonce, declared to have none
+		b := e.exchange(tcase{Cfg: config{Body: "full", Ct: "html", Csp: "scriptsrc", Enc: "br", Req: "plain", Accept: "browser"}, Inserted: 1, Nonces: nil}, 5000, rng)
+		// (c) a pass-through configuration declared to be rewritten
+		c := e.exchange(tcase{Cfg: config{Body: "full", Ct: "other", Csp: "none", Enc: "none", Req: "plain", Accept: "browser"}, Inserted: 1}, 5000, rng)
+		// (d) the uncorrupted twin of (a) holds
+		d := e.exchange(tcase{Cfg: config{Body: "full", Ct: "html", Csp: "scriptsrc", Enc: "gzip", Req: "plain", Accept: "browser"}, Inserted: 1, Nonce: "N1", Nonces: []string{"N1"}}, 5000, rng)
+		vhlib.Summary(map[string]any{"a": a.invariant, "b": b.invariant, "c": c.invariant, "d": d.invariant + d.drift})
 	case "cases":
 		cases(os.Args[2:])
 	default:
@@ -670,10 +689,27 @@ func cases(args []string) {
 	var jobs []job
 	nbig := 16
 	if thorough {
-		nbig = 160
+		nbig = 500
 	}
+	// multi-megabyte bodies for a seeded subset: mostly configurations that are rewritten, a few that pass through
 	bigAt := map[int]bool{}
-	for _, i := range rng.Perm(len(tcs))[:min(nbig, len(tcs))] {
+	var rw, pt []int
+	for i, tc := range tcs {
+		if tc.Cfg.Body == "empty" {
+			continue
+		}
+		if tc.MustPass {
+			pt = append(pt, i)
+		} else {
+			rw = append(rw, i)
+		}
+	}
+	rng.Shuffle(len(rw), func(a, b int) { rw[a], rw[b] = rw[b], rw[a] })
+	rng.Shuffle(len(pt), func(a, b int) { pt[a], pt[b] = pt[b], pt[a] })
+	for _, i := range rw[:min(nbig, len(rw))] {
+		bigAt[i] = true
+	}
+	for _, i := range pt[:min(nbig/4, len(pt))] {
 		bigAt[i] = true
 	}
 	for i, tc := range tcs {
